@@ -80,15 +80,21 @@ impl Tree {
         else {
             let node = self.items.get_mut(&id).unwrap();
             if cmd.command.is_query() {
-                if let Some(_existing) = &node.query {
-                    return Err(Error::QueryExists);
+                if let Some(existing) = &node.query {
+                    // The same declaration may reach a node by several of its own
+                    // spellings (e.g. `[AB]:[AB]`); only a different one collides.
+                    if !Rc::ptr_eq(existing, &cmd) {
+                        return Err(Error::QueryExists);
+                    }
                 }
                 else {
                     node.query = Some(cmd)
                 }
             }
-            else if let Some(_existing) = &node.command {
-                return Err(Error::CommandExists);
+            else if let Some(existing) = &node.command {
+                if !Rc::ptr_eq(existing, &cmd) {
+                    return Err(Error::CommandExists);
+                }
             }
             else {
                 node.command = Some(cmd)
